@@ -45,6 +45,16 @@ def cases(draw, max_inner=9):
 
 
 @st.composite
+def zero_reward_chains(draw):
+    """No state pays anything (the reward objective is vacuous) and no player ever has a choice: the
+    diagnostics are still defined - with pruning on the probability under the final strategies is 1 at the
+    initial state although part of the probability mass is lost to dead states."""
+    g = draw(games.stopping_games(min_inner=2, max_inner=8, rewards=(0, 0), owners=(PR, PR, PR, P1, P2), max_actions=1,
+                                  max_sinks=2, zero_edges=True))
+    return dict(game=g, prune=draw(st.sampled_from((True, True, False))))
+
+
+@st.composite
 def crossed(draw):
     """A root player state over 2-3 branches; each branch is a Player 2 (or Player 1) state choosing
     between rewarded lotteries, so that the reachability-optimal and the reward-optimal action of
@@ -124,7 +134,10 @@ def slow_cases():
 def phases(tier):
     return [Phase("half-millionth-reach-values", enum=half_millionth_cases,
                   note="reach probabilities that sit on a 6-digit rounding boundary, siblings less than 1e-6 away"),
-            Phase("slow-rewarded-loops", enum=slow_cases, note="values that need 10^3..10^5 sweeps"),Phase("crossed-objectives", strategy=crossed, examples=(600, 20000)),
+            Phase("slow-rewarded-loops", enum=slow_cases, note="values that need 10^3..10^5 sweeps"),
+            Phase("zero-reward-chains", strategy=zero_reward_chains, examples=(250, 8000),
+                  note="no rewards and no choices at all: the diagnostics are still defined"),
+            Phase("crossed-objectives", strategy=crossed, examples=(600, 20000)),
             Phase("stopping-games-generic-rewards", strategy=lambda: cases(9 if tier == "quick" else 12),
                   examples=(2400, 70000))]
 
